@@ -83,8 +83,10 @@ SMALL_BUILTINS = ["f2.wa", "f2.geowa", "pentagon_ra.wa", "cone_torus.wa", "cox33
 
 # ---------------------------------------------------------------------------
 # construction routes
-def build_init(init, ctx):
-    """(library FSA, model) for an init description"""
+def build_init(init, ctx, guards=None):
+    """(library FSA, model) for an init description; `guards` collects (object handed to
+    the constructor, deep copy made before): the caller's dictionary must stay as it was"""
+    guards = guards if guards is not None else []
     route = init["route"]
     ctx.label("init=" + route)
     if route in ("dict", "alt"):
@@ -94,9 +96,13 @@ def build_init(init, ctx):
         if route == "dict":
             if len(m.verts) > len(init["graph"]):
                 ctx.label("hidden-vertices")
-            A = FSA(M.pairs_to_graph_dict(init["graph"]), start_vertices=list(m.start))
+            src = M.pairs_to_graph_dict(init["graph"])
+            guards.append((src, copy.deepcopy(src)))
+            A = FSA(src, start_vertices=list(m.start))
         else:
-            A = FSA(M.model_to_alt_dict(m), start_vertices=list(m.start), graph_dict=False)
+            src = M.model_to_alt_dict(m)
+            guards.append((src, copy.deepcopy(src)))
+            A = FSA(src, start_vertices=list(m.start), graph_dict=False)
         return A, m
     if route == "empty":
         m = GraphModel(start=init.get("start", []))
@@ -143,7 +149,8 @@ class Machine:
         self.uv = list(range(case.get("nv", 3)))
         self.ul = list("abcd"[:case.get("nl", 2)])
         self.allow_queries = allow_queries
-        self.fsa, self.m = build_init(case["init"], ctx)
+        self.guards = []
+        self.fsa, self.m = build_init(case["init"], ctx, self.guards)
         self.shadows = []            # (fsa, frozen model, what)
         self.trace = ["init " + case["init"]["route"]]
         self.nexec = 0
@@ -243,6 +250,10 @@ class Machine:
                 if self.queried:
                     self.ctx.label("edit-after-query")
             self.check_all()
+        for (src, ref) in self.guards:
+            self.ctx.check(src == ref, "the dictionary handed to the constructor was modified by "
+                           "the automaton built from it", now=repr(src)[:300],
+                           was=repr(ref)[:300], trace=self.trace[-8:])
         if self.nexec >= 3:
             self.ctx.label("len>=3")
         if self.nexec >= 10:
